@@ -366,7 +366,10 @@ Example C01_gen_nonvacuous :
 Proof. vm_compute. repeat split. Qed.
 
 (* compute_intensity_of_jumps for a 2-d (copula) model regenerated from the source (Gen/GenTieChain2d.v: the 3 x 3 blocks of
-   itertools.product minus the first, unrolled by the plug-in) is the hand model intensity2 ... *)
+   itertools.product minus the first, unrolled by the plug-in) is the hand model intensity2.  THE SPEC'S READING (audit5a X-d): in this
+   generated definition h_left / h_right are the per-axis terms WRITTEN IN specs/TIE.py (`static_values`: left_point / right_point / middle
+   of each axis with its own length), not what grid.left_point(CoordinateND) etc. execute; the statement about the code's own dispatch is
+   C01_gen_compute_intensity_of_jumps_2d_nd_is_model below ... *)
 Theorem C01_gen_compute_intensity_of_jumps_2d_is_model : forall (mass2 : Q * Q -> Q * Q -> Q) (mid : Q -> Q -> Q) xs ys (o : nat),
   GenTieChain2d.compute_intensity_of_jumps_2d mass2 mid xs ys (Z.of_nat o) == Chain.intensity2 mid mass2 xs ys o.
 Proof. exact gen_compute_intensity_of_jumps_2d_eq_model. Qed.
@@ -387,6 +390,43 @@ Proof.
   intros mass2 H1 H2 H3 xs ys o hx hy Ax Ay E. exists (q_matrix2 amid mass2 xs ys o). split; [apply q_matrix2_c_eq; exact E|].
   apply (gen_sum_rates_is_intensity_2d mass2 H1 H2 H3 xs ys o hx hy Ax Ay).
 Qed.
+
+(* wave 8 (audit5a X-d) -- the 2-d intensity AS THE CODE DISPATCHES IT: GenTieChain2d.compute_intensity_of_jumps_2d_nd has h_left / h_right
+   built by APPLYING the translated CoordinateND variants of left_point / right_point (clamp len(axes[0]) on BOTH axes, spatial.py:93) and
+   the tuple variant of middle (GenTieChain.left_point_nd2 / right_point_nd2 / middle_nd2) to the origin coordinate; nothing of the cell
+   geometry is written in the spec.  For two axes of equal lengths (every constructor) it is the hand model intensity2; on unequal
+   lengths with the origin on the last point of the shorter first axis it is not (Tie_Chain2d.gen_compute_intensity_of_jumps_2d_nd_clamp_refuted) *)
+Theorem C01_gen_compute_intensity_of_jumps_2d_nd_is_model : forall (mass2 : Q * Q -> Q * Q -> Q) xs ys (o : nat),
+  length ys = length xs ->
+  GenTieChain2d.compute_intensity_of_jumps_2d_nd mass2 xs ys (Z.of_nat o) == Chain.intensity2 amid mass2 xs ys o.
+Proof. exact gen_compute_intensity_of_jumps_2d_nd_is_model. Qed.
+
+(* ... and the rates of the product grid (code's clamp) sum to THAT generated intensity *)
+Theorem C01_gen_sum_rates_is_intensity_2d_nd : forall (mass2 : Q * Q -> Q * Q -> Q),
+  (forall a1 b1 c1 y1 y2, a1 <= b1 -> b1 <= c1 -> avoids (a1, y1) (c1, y2) ->
+     mass2 (a1, y1) (c1, y2) == mass2 (a1, y1) (b1, y2) + mass2 (b1, y1) (c1, y2)) ->
+  (forall x1 x2 a2 b2 c2, a2 <= b2 -> b2 <= c2 -> avoids (x1, a2) (x2, c2) ->
+     mass2 (x1, a2) (x2, c2) == mass2 (x1, a2) (x2, b2) + mass2 (x1, b2) (x2, c2)) ->
+  (forall a1 a2 b1 b2 a1' a2' b1' b2', a1 == a1' -> a2 == a2' -> b1 == b1' -> b2 == b2' ->
+     mass2 (a1, a2) (b1, b2) == mass2 (a1', a2') (b1', b2')) ->
+  forall xs ys (o : nat) hx hy, admissible xs o hx -> admissible ys o hy -> length ys = length xs ->
+  exists t, q_matrix2_c amid mass2 xs ys o = Some t
+            /\ qsum2 t == GenTieChain2d.compute_intensity_of_jumps_2d_nd mass2 xs ys (Z.of_nat o).
+Proof.
+  intros mass2 H1 H2 H3 xs ys o hx hy Ax Ay E. exists (q_matrix2 amid mass2 xs ys o). split; [apply q_matrix2_c_eq; exact E|].
+  apply (gen_sum_rates_is_intensity_2d_nd mass2 H1 H2 H3 xs ys o hx hy Ax Ay E).
+Qed.
+
+(* non-vacuity: two DIFFERENT admissible axes of equal lengths, the step mass of C01_nonvacuous_2d: the dispatched definition runs and
+   gives the sum of the code-clamp rates, which is not zero *)
+Example C01_gen_2d_nd_nonvacuous :
+  let ps := [(1#4, 1#2, -(1#4), 1#4, 4); (1#2, 3#4, 1#4, 2, 4); (-2, -1, -2, 1, 3)] in
+  let xs := [-2; -1; 0; 1; 2] in let ys := [-2; -(1#2); 0; 1#2; 2] in
+  admissibleb xs 2 1 = true /\ admissibleb ys 2 (1#2) = true /\ length ys = length xs
+  /\ option_map (fun t => Qeq_bool (qsum2 t) (GenTieChain2d.compute_intensity_of_jumps_2d_nd (step_mass2 ps) xs ys 2))
+       (q_matrix2_c amid (step_mass2 ps) xs ys 2) = Some true
+  /\ Qle_bool (GenTieChain2d.compute_intensity_of_jumps_2d_nd (step_mass2 ps) xs ys 2) 0 = false.
+Proof. vm_compute. repeat split. Qed.
 
 (* ---------------- the ALIAS / TABLE rate path of create_sampling_method (wave 6), COMPOSED WITH C02: C02's sampler theorems assume a
    probability vector; for the vector the factory builds from an admissible chain (Model/Factory.v vec_jump = create_vec_jump_matrix of
@@ -652,6 +692,9 @@ Print Assumptions C01_gen_chain_rates.
 Print Assumptions C01_gen_nonvacuous.
 Print Assumptions C01_gen_compute_intensity_of_jumps_2d_is_model.
 Print Assumptions C01_gen_sum_rates_is_intensity_2d.
+Print Assumptions C01_gen_compute_intensity_of_jumps_2d_nd_is_model.
+Print Assumptions C01_gen_sum_rates_is_intensity_2d_nd.
+Print Assumptions C01_gen_2d_nd_nonvacuous.
 Print Assumptions C01_factory_vector_is_distribution.
 Print Assumptions C01_alias_table_chain_law.
 Print Assumptions C01_factory_nonvacuous_values.
